@@ -62,6 +62,10 @@ func names(tier int) []string {
 		"/run/udev/data/b8:16", "/sys/kernel/x", "/srv/11111111-2222-3333-4444-555555555555/x", "/srv/" + strings.Repeat("a1", 32), "/srv/123456", "/srv/12345678",
 		"/srv/1234567890", "/srv/1234567890123456", "/srv/Foo", "/srv/foo", "/usr/lib/modules/6.1.0-1-amd64/kernel/x.ko", "/srv/:1.42/x", "/opt/1000/x",
 		"/srv/x86_64/y", "/etc/app/x.conf", "/var/lib/app/x", "/dev/dri/card0", "/srv/data/plain",
+		// characters that are pattern syntax in a rule but plain characters in a file name (the kernel logs them as they are)
+		"/srv/report[1].pdf", "/srv/{ec8030f7-c20a-464f-9b0e-13a3a9e97384}/x", `/srv/mnt-my\x2ddisk.mount`, "/srv/a*b", "/srv/a?b", "/srv/{a,b}",
+		// directories that only look like the dot directories of the home rewrites
+		"/home/user/ccache/a.o", "/home/user/xconfig/a", "/home/user/Xlocal/share/x", "/home/user/xssh/id", "/home/user/-gnupg/x",
 	}
 	if tier > 0 {
 		n = append(n, "/home/a.b/.cache/x", "/home/user/.cachefoo", "/usr/libfoo/x", "/usr/binfoo", "/runfoo/x", "/proc/12/fd/3", "/proc/1234/task/5/stat", "/proc/10/x",
